@@ -256,7 +256,7 @@ def qubo_to_quso(Q):
     else:
         squash_key = qv.QUBO.squash_key
 
-    L = QUSOMatrix() if type(Q) == QUBOMatrix else qv.QUSO()
+    L = QUSOMatrix() if type(Q) in (QUBOMatrix, PUBOMatrix) else qv.QUSO()
 
     for kp, v in Q.items():
         k = squash_key(kp)
@@ -322,7 +322,7 @@ def quso_to_qubo(L):
     else:
         squash_key = qv.QUSO.squash_key
 
-    Q = QUBOMatrix() if type(L) == QUSOMatrix else qv.QUBO()
+    Q = QUBOMatrix() if type(L) in (QUSOMatrix, PUSOMatrix) else qv.QUBO()
 
     for kp, v in L.items():
         k = squash_key(kp)
